@@ -20,31 +20,60 @@ pub trait Src {
 #[cfg(kani)]
 pub struct KaniSrc;
 
+/// Every draw is followed by an always-true assumption that mentions the
+/// drawn value. It costs nothing to the solver but keeps the input inside the
+/// cone of influence of every later assertion, so CBMC's formula slicer keeps
+/// it and a (sliced, cheap) counterexample trace lists *all* draws in order.
+#[cfg(kani)]
+macro_rules! keep {
+    ($v:expr) => {
+        kani::assume(($v | 1) != 0)
+    };
+}
+
 #[cfg(kani)]
 impl Src for KaniSrc {
     #[inline(always)]
     fn u8(&mut self) -> u8 {
-        kani::any()
+        let v: u8 = kani::any();
+        keep!(v);
+        v
     }
     #[inline(always)]
     fn u16(&mut self) -> u16 {
-        kani::any()
+        let v: u16 = kani::any();
+        keep!(v);
+        v
     }
     #[inline(always)]
     fn u32(&mut self) -> u32 {
-        kani::any()
+        let v: u32 = kani::any();
+        keep!(v);
+        v
     }
     #[inline(always)]
     fn usize(&mut self) -> usize {
-        kani::any()
+        let v: usize = kani::any();
+        keep!(v);
+        v
     }
     #[inline(always)]
     fn bool(&mut self) -> bool {
-        kani::any()
+        let v: bool = kani::any();
+        keep!(v as u8);
+        v
     }
     #[inline(always)]
     fn arr<const N: usize>(&mut self) -> [u8; N] {
-        kani::any()
+        let a: [u8; N] = kani::any();
+        let mut acc = 0u8;
+        let mut i = 0;
+        while i < N {
+            acc |= a[i];
+            i += 1;
+        }
+        keep!(acc);
+        a
     }
     #[inline(always)]
     fn assume(&mut self, c: bool) {
